@@ -6,7 +6,7 @@ Open Scope Z_scope.
 
 Definition w_cfg (fix7 fix23 : bool) : config :=
   mkCfg [1;2;3;4]%N [0;1;2]%N 2 [KPlain;KPlain;KPlain;KPlain;KPlain;KNotary;KNeo;KGas] 5 6 7 5200000000000000
-        false true fix7 fix23.
+        false true fix7 fix23 true.
 
 Definition w_tx (signer : N) (o : op) : tx := mkTx signer 100000000 1000000 [] o true None.
 Definition w_reg (signer k : N) : tx := mkTx signer 101000000000 1000000 [] (OReg k 101000000000) true None.
@@ -28,6 +28,32 @@ Definition w_f7 : list (list tx) :=
 Definition w_f23 : list (list tx) :=
   w_prefix ++ [ [ w_tx 1 (OVote 1 None); w_tx 4 (OUnreg 3) ]; [ w_reg 4 3 ] ].
 Definition w_f23_next : list tx := [ w_tx 1 (OVote 1 (Some 3%N)) ].
+
+(* F47: the committee sets the whitelisted fee of the contract of account 2 to 7, later to 900000 *)
+Definition w_cfg47 (fix47 : bool) : config :=
+  mkCfg [1;2;3;4]%N [0;1;2]%N 2 [KPlain;KPlain;KPlain;KPlain;KPlain;KNotary;KNeo;KGas] 5 6 7 5200000000000000
+        true true true true fix47.
+Definition w_f47 : list (list tx) :=
+  [ [ mkTx 0 100000000 1000000 [0;1;2]%N (OWhitelist 2 (Some 7)) true None ];
+    [ mkTx 0 100000000 1000000 [0;1;2]%N (OWhitelist 2 (Some 900000)) true None ] ].
+
+Lemma w_cfg47_wf f : cfg_wf (w_cfg47 f).
+Proof. apply cfg_wf_of_check. destruct f; vm_compute; reflexivity. Qed.
+Lemma w_f47_ok f : blocks_ok (w_cfg47 f) w_f47.
+Proof. repeat constructor; unfold tx_ok; simpl; discriminate. Qed.
+
+(* unrepaired: the running node still charges the first fee, a restarted node the second *)
+Lemma f47_refuted :
+  let cfg := w_cfg47 false in
+  whitelisted_fee (reach cfg w_f47) 2 = Some 7
+  /\ whitelisted_fee (reinit cfg (reach cfg w_f47)) 2 = Some 900000.
+Proof. vm_compute. split; reflexivity. Qed.
+
+Lemma f47_repaired :
+  let cfg := w_cfg47 true in
+  whitelisted_fee (reach cfg w_f47) 2 = Some 900000
+  /\ whitelisted_fee (reinit cfg (reach cfg w_f47)) 2 = Some 900000.
+Proof. vm_compute. split; reflexivity. Qed.
 
 Lemma w_cfg_wf f7 f23 : cfg_wf (w_cfg f7 f23).
 Proof. apply cfg_wf_of_check. destruct f7, f23; vm_compute; reflexivity. Qed.
